@@ -246,6 +246,19 @@ def run(ctx):
         crafted.append(craft_b2([(b'https://example.com/', r)]))
         crafted.append(craft_b2([(b'https://example.com/0', craft_response([ST], b'ok')), (b'https://example.com/1', r)], primary=b'https://example.com/0'))
     muts += crafted
+    # bundles past 64 KiB: offsets / lengths of every CBOR width class (1, 2, 3, 5 byte heads) decoded one after another by the same
+    # decoder, in both orders (index entries are sorted by URL, so the URL names decide the order in which the widths appear)
+    bigseeds = []
+    for ver in ('b1', 'b2'):
+        for names in ((b'a', b'b', b'c', b'd', b'e'), (b'e', b'd', b'c', b'b', b'a'), (b'c', b'a', b'e', b'b', b'd')):
+            sizes = [10, 70000, 1000, 2000, 300]
+            bigseeds.append(bundle(ver, b'https://example.com/' + names[0], None, None,
+                                   [exch(b'https://example.com/' + n, 200, [(b'X-N', [n])], bytes([65 + i]) * sz) for i, (n, sz) in enumerate(zip(names, sizes))]))
+    bres, _ = ctx.both([f'bundle.write {b}' for b in bigseeds])
+    bigfiles = [r.split(' ')[1] for r in bres if r and r.startswith('ok ')]
+    if len(bigfiles) < len(bigseeds):
+        ctx.infra.append(f'{len(bigseeds) - len(bigfiles)} large seed bundles could not be written')
+    read_stage(ctx, bigfiles)
     # F5/F6/F7 witnesses built by hand
     seen, uniq = set(), []
     for mfile in muts:
